@@ -617,4 +617,9 @@ mod tests {
 #[allow(missing_docs, unused_imports, dead_code, clippy::all, clippy::pedantic, clippy::nursery)]
 pub mod verif_hooks {
     use super::*;
+
+    /// `ContentStartpoints::from_sizes(sizes).compute_start(offset)`
+    pub fn compute_start(sizes: &[usize], offset: usize) -> (usize, usize) {
+        ContentStartpoints::from_sizes(sizes.iter().map(|s| Ok(*s))).unwrap().compute_start(offset)
+    }
 }
